@@ -16,7 +16,7 @@ TECHNIQUE = 'static analysis: scope-walk shape (loop form or from_fn/find_map it
 CLAUSE = ('ConstructibleDb::get / get_or_try_bind test the current scope before extending the search, and extend it with direct_parent_ids '
           'only; process_blueprint creates a new scope for every nested blueprint and processes it in that scope; '
           'ConstructiblesInScope::insert overwrites (latest registration wins); get_clone_component_id is the only builder of a `clone` '
-          'callable and returns None for NeverClone before building it; each Registered* setter stores Some(value derived from its argument).')
+          'callable and returns None for NeverClone before building it; each Registered* setter stores Some(value derived from its argument). Every ResolvedImport is recorded under shape tests only (no seen-set de-duplication) with the scope of its raw import.')
 TRUSTED = ['ScopeGraph::direct_parent_ids returns exactly the enclosing scopes', 'HashMap::insert replaces the previous value for a key']
 
 A = PX + 'analyses::'
